@@ -71,6 +71,7 @@ static int m_first_match(const char *name) { for (int i = 0; i < MN; i++) if (eq
 /* optional out-parameters are NULL in one call out of four; the variable is preset to what the callee would have stored */
 static size_t *optout(size_t *p, size_t expect) { if (rng_chance(&R, 1, 4)) { *p = expect; vf_count("calls_with_null_out_parameter", 1); return NULL; } return p; }
 static void order_check(void) {
+    { static unsigned long pc; if (T->qmutex && (++pc % 29) == 0 && !vf_lock_probe(T->qmutex)) { judge("C08", "unusable-for-other-threads", "a second thread can not take the lock of the (thread-safe) table: an earlier call returned with it held"); return; } }
     if (DEBUG_NOW()) { T->debug(T, DEVNULL); vf_count("debug_prints", 1); }
     vf_count("order_compares", 1);
     if (T->size(T) != (size_t)MN) { judge("C08", "size", "size()=%zu model=%d", T->size(T), MN); return; }
@@ -90,9 +91,10 @@ static void order_check(void) {
 }
 
 /* ---- values ---------------------------------------------------------------- */
-static unsigned char VBUF[300]; static long valctr;
+static unsigned char VBUF[2400]; static long valctr;
 static size_t gen_value(bool as_string) {
     size_t l = 1 + rng_below(&R, rng_chance(&R, 1, 8) ? 200 : 16);
+    if (as_string && rng_chance(&R, 1, 40)) l = (size_t[]){1023, 1024, 1025, 1500, 2048}[rng_below(&R, 5)];     /* the formatted put functions retry with a larger buffer from 1024 bytes on */
     valctr++;
     for (size_t i = 0; i < l; i++) VBUF[i] = as_string ? (unsigned char)(1 + rng_below(&R, 255)) : (unsigned char)rng_below(&R, 256);
     VBUF[0] = (unsigned char)('!' + valctr % 90);
@@ -103,7 +105,8 @@ static size_t gen_value(bool as_string) {
 static void table_new(int opt) {
     OPT = opt; oU = opt & 1; oC = opt & 2; oT = opt & 4; oF = opt & 8;
     ledger_mark = vf_ledger_mark();
-    T = qlisttbl((oU ? QLISTTBL_UNIQUE : 0) | (oC ? QLISTTBL_CASEINSENSITIVE : 0) | (oT ? QLISTTBL_INSERTTOP : 0) | (oF ? QLISTTBL_LOOKUPFORWARD : 0));
+    static unsigned long tctr; tctr++;
+    T = qlisttbl(((tctr & 1) ? QLISTTBL_THREADSAFE : 0) | (oU ? QLISTTBL_UNIQUE : 0) | (oC ? QLISTTBL_CASEINSENSITIVE : 0) | (oT ? QLISTTBL_INSERTTOP : 0) | (oF ? QLISTTBL_LOOKUPFORWARD : 0));
     if (!T) { fprintf(stderr, "qlisttbl() failed\n"); exit(2); }
     abandon = false; m_clear();
 }
@@ -259,6 +262,13 @@ static void history(long caseno) {
         else if (c < 94) op_sort();
         else if (c < 98) op_saveload();
         else if (rng_chance(&R, 1, 3)) { vf_log("clear"); T->clear(T); m_clear(); vf_count("clear", 1); }
+        else { /* refused calls are effect-free: invalid values for a name that may be present (a unique table must not drop the old entry first) */
+            vf_log("invalid put %s", name); errno = 0;
+            if (T->putstr(T, name, NULL) || errno != EINVAL) judge("C08", "einval", "putstr(%s, NULL) not refused with EINVAL", name);
+            errno = 0; if (!abandon && (T->put(T, name, "x", 0) || errno != EINVAL)) judge("C08", "einval", "put(%s, size 0) not refused with EINVAL", name);
+            errno = 0; if (!abandon && (T->put(T, name, NULL, 3) || errno != EINVAL)) judge("C08", "einval", "put(%s, NULL data) not refused with EINVAL", name);
+            errno = 0; if (!abandon && (T->put(T, NULL, "x", 1) || errno != EINVAL)) judge("C08", "einval", "put(NULL name) not refused with EINVAL");
+            vf_count("invalid_arg_calls", 4); }
         vf_count("evaluations", 1);
         if (!abandon) order_check();
         if (!abandon && (op & 3) == 0) { uint64_t h = VF_H0 + (uint64_t)opt; for (int i = 0; i < MN; i++) h = vf_hash(M[i].name, strlen(M[i].name), h); vf_distinct("distinct", h); }
